@@ -10,7 +10,9 @@ import glob
 import os
 
 import vlib
-from checks.c10 import run_sharded, run_proc, parse_kv
+import shutil
+
+from checks.c10 import run_sharded, run_proc, parse_kv, private_scratch
 
 U32 = 1 << 32
 
@@ -242,7 +244,11 @@ def run(ctx):
     # the end of the serial space (about 6 s of alloc_serial calls): the last serial is 2^32-2, the next call panics
     exhaust = "hist x%d a a" % (U32 - 3)
     all_lines = lines + [exhaust]
-    impl = run_sharded(exe, all_lines, timeout=1200 if thorough else 300)
+    tmp = private_scratch()
+    try:
+        impl = run_sharded(exe, all_lines, timeout=1200 if thorough else 300)
+    finally:
+        shutil.rmtree(tmp, ignore_errors=True)
     model = run_sharded(drv, [strip_api(l) for l in lines], timeout=1200 if thorough else 300)
 
     # exhaustion: predicted by theorem C13_history_outcome (nallocs < 2^32-1 <-> no panic) and Conn/SerialExamples.v ex_last_serial
@@ -311,7 +317,11 @@ def replay(ctx, body):
     data = body["data"]
     exe = vlib.harness_build(["c13"])["c13"]
     line = data["line"]
-    rc, out, err = run_proc(exe, [line], 600)
+    tmp = private_scratch()
+    try:
+        rc, out, err = run_proc(exe, [line], 600)
+    finally:
+        shutil.rmtree(tmp, ignore_errors=True)
     if not out:
         print("harness failed:", err[-500:])
         return 2
